@@ -548,6 +548,7 @@ def byte_lt(a, b):
 
 
 WIDE_COMPARE = 12
+HASH_BY_CONTENT = False      # set per path by harnesses whose LRUs are all concrete
 
 
 def _bv8(x):
@@ -605,7 +606,11 @@ class SymBytes(object):
         return len(self.items) > 0
 
     def __hash__(self):
-        # length only: equality is decided by __eq__ (a solver-decided fork)
+        # length only: equality is decided by __eq__ (a solver-decided fork).  In fully concrete
+        # levels (every byte string of the run is concrete) the hash is the one of the real bytes,
+        # so keys the code builds itself (e.g. by encoding a str) meet the proxies in one dict.
+        if HASH_BY_CONTENT and self._kind == "bytes" and self.is_concrete():
+            return hash(bytes(self.items))
         return hash(("symbytes", len(self.items)))
 
     def __iter__(self):
